@@ -105,6 +105,41 @@ def generate(rng, tier):
         kind = "str" if i % 2 == 0 else "file"
         lazy = (i // 2) % 2
         cases.append(mk("m%d" % i, mb, kind, lazy, True))
+    # offset + size wrapping around the field width: size = 2^w - offset + d for every section / segment
+    # (a bounds check written as "offset + size > stream_size" passes such values)
+    import struct
+    wc = 0
+    for im, b in sorted(bs, key=lambda t: rng.random()):
+        if wc >= (160 if tier == "quick" else 1200):
+            break
+        cls = im.cls
+        w = 64 if str(cls) == "64" else 32
+        e = "<" if str(im.enc).lower().startswith("l") or im.enc == 1 else ">"
+        ents = []
+        names_s = elfimg.SHDR_F; names_p = elfimg.PHDR_F[cls]
+        for what, base, fmt, names, fo, fs in (
+                [("sh%d" % i, im.hdr["shoff"] + i * im.hdr["shentsize"], elfimg.SHDR[cls], names_s, "offset", "size") for i in range(1, len(im.sections))] +
+                [("ph%d" % j, im.hdr["phoff"] + j * im.hdr["phentsize"], elfimg.PHDR[cls], names_p, "offset", "filesz") for j in range(len(im.segments))]):
+            pos, offs = base, {}
+            for ch, nm in zip(fmt, names):
+                wd = {"H": 2, "I": 4, "Q": 8}[ch]
+                offs[nm] = (pos, wd); pos += wd
+            ents.append((what, offs[fo], offs[fs]))
+        segs_e = [x for x in ents if x[0].startswith('ph')]; secs_e = [x for x in ents if x[0].startswith('sh')]
+        rng.shuffle(segs_e); rng.shuffle(secs_e)
+        for what, (po, pw), (so, sw) in segs_e[:1] + secs_e[:1]:
+            if po + pw > len(b) or so + sw > len(b):
+                continue
+            off = int.from_bytes(b[po:po + pw], "little" if e == "<" else "big")
+            if off < 2:
+                # give the entry an offset inside the file first
+                off = rng.choice([2, 16, max(2, len(b) // 2), max(2, len(b) - 8)])
+            for d in (0, 1, off // 2, off - 2):
+                mb = bytearray(b)
+                mb[po:po + pw] = (off % 2 ** (8 * pw)).to_bytes(pw, "little" if e == "<" else "big")
+                mb[so:so + sw] = ((2 ** (8 * sw) - off + d) % 2 ** (8 * sw)).to_bytes(sw, "little" if e == "<" else "big")
+                cases.append(mk("w%d" % wc, bytes(mb), "str" if wc % 2 == 0 else "file", (wc // 2) % 2, True))
+                wc += 1
     # unmutated bases, archived crashers, random bytes with a valid ident
     for j, (im, b) in enumerate(bs[:16]):
         cases.append(mk("b%d" % j, b, "str", j % 2, False))
